@@ -461,6 +461,7 @@ req_sketch<T, C, A> req_sketch<T, C, A>::deserialize(std::istream& is, const Ser
   const bool is_empty = flags_byte & (1 << flags::IS_EMPTY);
   const bool hra = flags_byte & (1 << flags::IS_HIGH_RANK);
   if (is_empty) return req_sketch(k, hra, comparator, allocator);
+  if (num_levels == 0) throw std::invalid_argument("Possible corruption: number of levels must not be 0 for a non-empty sketch");
 
   optional<T> tmp; // space to deserialize min and max
   optional<T> min_item;
@@ -538,6 +539,7 @@ req_sketch<T, C, A> req_sketch<T, C, A>::deserialize(const void* bytes, size_t s
   const bool is_empty = flags_byte & (1 << flags::IS_EMPTY);
   const bool hra = flags_byte & (1 << flags::IS_HIGH_RANK);
   if (is_empty) return req_sketch(k, hra, comparator, allocator);
+  if (num_levels == 0) throw std::invalid_argument("Possible corruption: number of levels must not be 0 for a non-empty sketch");
 
   optional<T> tmp; // space to deserialize min and max
   optional<T> min_item;
